@@ -129,6 +129,7 @@ type Rec struct {
 	stats    *Stats
 	hashes   map[uint64]struct{}
 	hashFile *os.File
+	hashBuf  []byte
 	violFile *os.File
 	sideFile *os.File
 	curPath  string
@@ -263,7 +264,11 @@ func (r *Rec) Nontrivial(key string) {
 		if r.hashFile != nil {
 			var b [8]byte
 			binary.LittleEndian.PutUint64(b[:], h)
-			r.hashFile.Write(b[:])
+			r.hashBuf = append(r.hashBuf, b[:]...)
+			if len(r.hashBuf) >= 1<<16 {
+				r.hashFile.Write(r.hashBuf)
+				r.hashBuf = r.hashBuf[:0]
+			}
 		}
 	}
 	r.mu.Unlock()
@@ -343,6 +348,10 @@ func clip(s string, n int) string {
 
 func (r *Rec) flush(done bool, next int64) {
 	r.mu.Lock()
+	if r.hashFile != nil && len(r.hashBuf) > 0 {
+		r.hashFile.Write(r.hashBuf)
+		r.hashBuf = r.hashBuf[:0]
+	}
 	r.stats.Next = next
 	r.stats.Done = done
 	b, _ := json.Marshal(r.stats)
@@ -507,7 +516,7 @@ func WorkerMain(propID, tier string, seed uint64, shard, of int, dir string, ski
 			mem := false
 			if !over {
 				runtime.ReadMemStats(&ms)
-				mem = ms.HeapAlloc > 3<<30
+				mem = ms.HeapAlloc > 3<<29
 			}
 			if over || mem {
 				f, _ := os.Create(r.curPath + ".dump")
